@@ -317,6 +317,28 @@ def run(ctx):
     if not full_done:
         res.add(Finding('C15', 'C15.e', 'R-ORDER', save.file, save.qualname, save.node.lineno, 'save writes both objects',
                         'no normal path of save performs both puts directly and in order (full object, then %s)' % disc))
+    # ---- C15.c (facade) the key / prefix the cassette computed is the one the bucket is asked to act on: the facade does not rewrite it
+    fac_ = repo.find_class('S3BasicFacade')
+    if fac_ is None:
+        raise AnalysisError('anchor-lost class=S3BasicFacade')
+    for mname, pname, kw in (('delete_by_prefix', 'prefix', 'Prefix'), ('put_string', 'key', 'Key'), ('get_string', 'key', 'Key'), ('iter_keys', 'prefix', 'Prefix')):
+        fm = fac_.lookup(mname)
+        if fm is None or pname not in fm.params:
+            raise AnalysisError('anchor-lost facade method %s(%s)' % (mname, pname))
+        rebinds = [n for n in walk_own(fm.node) if isinstance(n, (ast.Assign, ast.AugAssign)) and any(
+            isinstance(t, ast.Name) and t.id == pname for t in (n.targets if isinstance(n, ast.Assign) else [n.target]))]
+        uses = [k for n in ast.walk(fm.node) if isinstance(n, (ast.Call, ast.Dict)) for k in (
+            n.keywords if isinstance(n, ast.Call) else [ast.keyword(arg=kk.value if isinstance(kk, ast.Constant) else None, value=vv)
+                                                        for kk, vv in zip(n.keys, n.values) if kk is not None]) if k.arg == kw]
+        as_given = bool(uses) and all(isinstance(k.value, ast.Name) and k.value.id == pname for k in uses)
+        okf_ = as_given and not rebinds
+        cc.instance('facade %s: `%s` handed to the bucket as given' % (mname, pname), fm.qualname, okf_)
+        cc.evaluations += 1
+        if not okf_:
+            n0 = rebinds[0] if rebinds else (uses[0].value if uses else fm.node)
+            res.add(Finding('C15', 'C15.c', 'R-PROV', fm.file, fm.qualname, getattr(n0, 'lineno', fm.node.lineno), norm(n0)[:100],
+                            'the facade changes the %s it was given before acting on the bucket (`%s`): the cassette\'s confinement to its own keys '
+                            '(fixed, delimiter-terminated prefix) no longer holds for what is actually listed / deleted / written' % (pname, norm(n0)[:80])))
     # ---- C15.h closing a writable transient cassette always cleans up: the two switches are the only conditions
     from .. import paths as _paths
     ch = res.clause('C15.h', 'R-DECISION', 'close(): the clean-up depends on read_only / transient only, and removes both key families', floor=1)
